@@ -31,6 +31,39 @@ def cmp_post(c):
 CMP = REG.add(Contract(
     "reader.configure_metadata_patterns", params={"line": STR, "section_name": STR},
     ensures=cmp_post, ghost_init=cmp_init, modifies={}, abstract_exprs=True,
-    local_types={"patterns": LIST(STR)}, noraise=True,
+    local_types={"patterns": LIST(STR)}, noraise=True, returns=LIST(STR),
     properties=("C19", "C10", "C04")))
 CMP.note = "str.find/rfind positions and re.search are opaque; the function only builds strings from literals"
+
+
+# ---------------------------------------------------------------- read_header_line: no hidden state either
+def rhl_init(c, st):
+    cmp_init(c, st)
+    st.ghost["$fresh"] = z3.K(PyObj, z3.BoolVal(False))
+
+
+def only_own_objects(c):
+    o = z3.Const("any_obj", PyObj)
+    return [("only-objects-created-in-this-call-are-updated (the result dict is new on every call; no module-level table is written)",
+             z3.ForAll([o], z3.Implies(z3.Select(c.g("$mutated"), o), z3.Select(c.g("$fresh"), o))))]
+
+
+REG.add(Contract("lib:re.match", params={"pattern": "any", "string": "any"}, returns=OBJ, assumed=True, may_raise=["Any"],
+                 note="re.match returns a match object or None; it updates nothing visible", properties=("C19", "C10", "C04")))
+
+def rhl_loop1(c):
+    d = c.st.env.get("d")
+    own = [("the-dict-being-filled-was-created-in-this-call", z3.Select(c.g("$fresh"), d.t))] if isinstance(d, VObj) else \
+          [("the-dict-being-filled-was-created-in-this-call", z3.BoolVal(False))]
+    return own + only_own_objects(c)
+
+
+RHL = REG.add(Contract(
+    "reader.read_header_line", params={"line": STR, "pattern": NONE, "section_name": STR},
+    ensures=only_own_objects, loops={0: only_own_objects, 1: rhl_loop1},
+    loop_ghost={0: ["$mutated", "$mutated_key", "$mutated_val", "$fresh"], 1: ["$mutated", "$mutated_key", "$mutated_val", "$fresh"]},
+    ghost_init=rhl_init, modifies={}, abstract_exprs=True, opaque_iterables=True, may_raise=["Any"],
+    local_types={"patterns": LIST(STR)}, loop_types={"m": OBJ, "pattern": STR},
+    properties=("C19", "C10", "C04")))
+RHL.note = ("re.match, m.groupdict() and the iteration over its items are opaque; what is proved is WHICH objects the function updates: "
+            "only the dict it builds itself")
